@@ -120,8 +120,16 @@ def run(chk, cases_override=None):
         cases = data["cases"]
     else:
         cases, data = cases_override, {"registry": []}
-    mism = eval_cases(chk, cases)
     oracle_fail = [i for i, c in enumerate(cases) if c["oracle"]]
+    # a case on which the real code already fails the property's own statement and whose decoded
+    # garbage is huge (a mis-read length prefix yields megabytes) is reported from the direct oracle;
+    # printing it as a Coq term would only stall coqc
+    def term_size(c):
+        return sum(len(str(f["v"])) for f in (c["fields"] or [])) + sum(len(str(f["v"])) for f in (c["dec"] or []))
+    skip = {i for i in oracle_fail if term_size(cases[i]) > 600000}
+    keep = [i for i in range(len(cases)) if i not in skip]
+    mism_k = eval_cases(chk, [cases[i] for i in keep])
+    mism = {keep[j]: e for j, e in mism_k.items()}
     v1_fail = [i for i, e in mism.items() if 3 in e or 1 in e]
     corr_fail = [i for i, e in mism.items() if any(x in (2, 4, 5, 6) for x in e)]
 
@@ -146,6 +154,20 @@ def run(chk, cases_override=None):
                       "property not shown on this tree" % ", ".join(ERR[e] for e in mism[i]),
                       {"case": slim(cases[i]), "correspondence": "Codec/CodecCases.v check_case",
                        "model_disagreements": [ERR[e] for e in mism[i]]}, False)
+    if (not ok_proof or corr_fail) and not reported and cases_override is None:
+        # failing-input search (DESIGN 4.7): a proof obligation or the correspondence broke but no
+        # generated case failed the property's own statement: look harder on the real code
+        sdata, _ = vlib.run_harness("codec", chk.tmp("search.json"), seed=chk.seed, n=800, big=0, search=1)
+        found = sorted(sdata["cases"], key=lambda c: len(c["enc"] or ""))
+        chk.coverage["failing_input_search"] = {"cases_failing": len(found),
+                                                "rule": "800 messages per type (limits in every 8th) + every ms count 0..130000 for durations, direct oracle"}
+        seen = set()
+        for c in found:
+            if c["type"] in seen:
+                continue
+            seen.add(c["type"])
+            chk.violations = [v for v in chk.violations if v[1] == ""]
+            chk.violation("%s: %s" % (c["type"], c["oracle"]), {"case": slim(c), "found_by": "failing-input search"}, True)
     if not ok_proof and not chk.violations:
         chk.violation("proof obligation of C12 no longer checks on the regenerated table",
                       {"theorem": "go_conforms / go_wf / C12_wire_codec (coq/Codec/CodecProofs.v)",
